@@ -1,5 +1,5 @@
 """C13 — JSON save/load round trip preserves structure and parameters (8 decimals + float32 storage)."""
-import io, os, json, hashlib, math, tempfile
+import io, os, json, hashlib, math, tempfile, copy
 from fractions import Fraction
 import numpy as np
 from harness.common import np_seed, Infra, parse_q, fstr, frac, RUN
@@ -290,6 +290,27 @@ def run(ctx):
         txt = round_trip(ctx, 'hand-built', root, rs, rep)
         if txt and ctx.driver_ok and getattr(root, 'children', None):
             model_document_check(ctx, root, txt, rep)
+        if ctx.n_new(with_input_only=True) >= 3:
+            return
+    # leaves FITTED (not constructed) with a domain that is not listed in increasing order: the fitted object keeps the caller's
+    # order, the loader goes through the constructor
+    from deeprob.spn.structure.leaf import Categorical as _Cat
+    for k in range(6 if quick else 60):
+        rs = np.random.RandomState(np_seed(ctx.sub_rng('fitted-leaves', k)))
+        leaves = []
+        for v in range(int(rs.randint(1, 4))):
+            dom = [int(t) for t in rs.permutation(int(rs.randint(2, 6)))]
+            lf = _Cat(v)
+            data = rs.choice(dom, size=(int(rs.choice([20, 60])), 1), p=rs.dirichlet(np.ones(len(dom)))).astype(np.float32)
+            lf.fit(data, dom, alpha=float(rs.choice([0.1, 1.0])))
+            leaves.append(lf)
+        comps = [Product(children=list(leaves)) if len(leaves) > 1 else leaves[0]]
+        root = Sum(children=comps + [copy.deepcopy(comps[0])], weights=[0.4, 0.6])
+        assign_ids(root)
+        table, order, _, _ = S.export_net(root)
+        ctx.case('fitted-leaves', nontrivial_key=('fitted-leaves', k), sample=dict(kind='fitted categorical leaves', domains=[[int(c) for c in l.categories] for l in leaves]))
+        ctx.count('circuits-with-leaves-fitted-on-unsorted-domains')
+        round_trip(ctx, 'fitted-leaves', root, rs, dict(kind='c13', table=table_with_py(table, order)))
         if ctx.n_new(with_input_only=True) >= 3:
             return
     # a Chow-Liu tree saved on its own
